@@ -873,9 +873,9 @@ func streamRespMut(seed uint64, thorough bool) {
 		}
 		var variants [][]byte
 		variants = append(variants, f.bytes)
-		for _, d := range []int{-3, -2, -1, 1, 2, 3} {
+		for _, d := range []int{-3, -2, -1, 1, 2, 3, 255, 256, 257, 512, -256} {
 			// count field changed
-			if cntOff < len(f.bytes) {
+			if cntOff < len(f.bytes) && d < 4 && d > -4 {
 				t := append([]byte(nil), f.bytes...)
 				t[cntOff] = byte(int(t[cntOff]) + d)
 				if !tcp {
@@ -1165,6 +1165,37 @@ func streamClassify(seed uint64, thorough bool) {
 				if l%11 == 0 {
 					emit("classify", L(B(b), Bool(true)), classify(b, true))
 				}
+			}
+		}
+	}
+	// dense grid of short announced lengths with the whole announced frame present and plausible
+	// field values: this is where a parser's minimum-length guard and the classifier can disagree
+	reps := 12
+	if thorough {
+		reps = 120
+	}
+	for l := 0; l <= 40; l++ {
+		for _, fc := range []int{1, 2, 3, 4, 5, 6, 15, 16, 17, 23, 7, 24, 128} {
+			for rep := 0; rep < reps; rep++ {
+				total := l + 6
+				if total < 8 {
+					total = 8
+				}
+				b := make([]byte, total)
+				for i := 8; i < total; i++ {
+					b[i] = byte(r.pick([]int{0, 0, 1, 2, 4, 0x7d, 0xff, int(r.u8())}))
+				}
+				// quantity-like fields in range most of the time
+				for _, off := range []int{10, 14} {
+					if off+2 <= total && r.intn(4) > 0 {
+						putU16(b, off, uint16(1+r.intn(120)))
+					}
+				}
+				putU16(b, 0, r.u16())
+				putU16(b, 4, uint16(l))
+				b[6] = r.u8()
+				b[7] = byte(fc)
+				emit("classify", L(B(b), Bool(false)), classify(b, false))
 			}
 		}
 	}
